@@ -332,6 +332,11 @@ def plan(tier):
     for req in (REQ_STOP, REQ_RESTART, REQ_RM, REQ_QUIT):
         for beh in behs:
             sh.append({'req': req, 'n0': 2, 'beh': beh, 'dmax': 20 if q else 40, 'K': 0, 'whenmax': 1})
+    if not q:
+        # three workers, the death hitting any of the first two, mixed behaviours
+        for req in (REQ_STOP, REQ_QUIT):
+            for beh in (0, 2, 4):
+                sh.append({'req': req, 'n0': 3, 'beh': beh, 'dmax': 40, 'K': 0, 'whenmax': 1})
     for beh in ((0,) if q else (0, 2)):
         sh.append({'req': REQ_STOP, 'n0': 1, 'beh': beh, 'K': 1 if q else 2, 'whenmax': 0})
     sh.append({'req': REQ_RM_NOSTOP, 'n0': 2, 'beh': 0, 'K': 0, 'whenmax': 0})
